@@ -1,1 +1,5 @@
 import ZCV.Props.C15
+open ZCV.Props.C15
+#print axioms C15_strip_invariant
+#print axioms C15_strip_invariant_model
+#print axioms C15_empty_form_equiv
